@@ -235,7 +235,8 @@ def run_shard(ctx):
                                  common.witness(f, channel="choices-header", bad=hdr, pretty=pretty, klass="names"))
     # ---- columns that address the generated parts of a control or bind (its element name, its ref/nodeset, the no-body flag) instead of adding an attribute
     RESERVED = [("body::tag", ["foo bar", "a<b", "upload", "x:y:z", "1tag", ""]), ("control::tag", ["in put", "a>b"]), ("body::ref", ["/data/zz", "zz", "/data/q1 "]),
-                ("body::nodeset", ["/data/zz"]), ("bind::nodeset", ["/data/zz"]), ("body::bodyless", ["yes", "true"]), ("bind::type", ["x y", "a<b"]), ("body::class", ["a b"])]
+                ("body::nodeset", ["/data/zz"]), ("bind::nodeset", ["/data/zz"]), ("body::bodyless", ["yes", "true"]), ("bind::type", ["x y", "a<b"]), ("body::class", ["a b"]),
+                ("action::name", ["follow up", "a<b", "esri:act"]), ("action::event", ["x y"]), ("action", ["do it"])]
     k = 0
     for col, vals in RESERVED:
         for val in vals:
@@ -247,6 +248,21 @@ def run_shard(ctx):
                 f = Form()
                 cells = {"label": "O", col: val}
                 inner = [Row("q", "text", "inner", {"label": "I"})]
+                if col.startswith("action") and owner in ("group", "repeat"):
+                    owner_type = {"group": "start-geopoint", "repeat": "decimal"}[owner]  # the action columns: on a question that has an action of its own, and on one that has none
+                    own_ = Row("q", owner_type, "own", cells if owner_type != "start-geopoint" else {col: val})
+                    f.survey = [Row("q", "text", "q1", {"label": "Q"}), own_]
+                    o = drive.convert_form(f)
+                    ctx.ctr("reserved_control_key_cases")
+                    if not o.ok:
+                        ctx.ctr("reserved_control_key_rejected")
+                        ctx.case(sig=f"reserved|{col}|{owner_type}|rejected")
+                        continue
+                    p, v = invariants.c01_wellformed(o.xform)
+                    ctx.case(sig=f"reserved|{col}|{owner_type}|{'bad' if v else 'ok'}")
+                    for key, what in v[:3]:
+                        ctx.viol(f"reserved-control-key:{col}:{key.split(':')[0]}", f"[{col}={val!r} on a {owner_type}] accepted and the output has: {what}", common.witness(f, klass="reserved", pretty=False, fmt="dict"))
+                    continue
                 own = {"question": Row("q", "text", "own", cells), "select": Row("q", "select_one l1", "own", cells),
                        "group": Row("group", "begin group", "own", cells, inner), "repeat": Row("repeat", "begin repeat", "own", cells, inner)}[owner]
                 f.survey = [Row("q", "text", "q1", {"label": "Q"}), own]
